@@ -641,6 +641,9 @@ class Rechunker:
             while split_indices[-1] + assumed_i < gap_indices[-1]:
                 if n > len(data):
                     raise ValueError("Trapped in infinite loop!")
+                if argmin + 1 >= len(gap_indices):
+                    # No gap left to split at
+                    break
                 _argmin = np.abs(gap_indices[argmin + 1 :] - assumed_i - split_indices[-1]).argmin()
                 split_indices.append(gap_indices[argmin + 1 :][_argmin])
                 argmin += _argmin + 1
